@@ -31,5 +31,6 @@ CFG = dict(
                 "fail and whatever the pools' Eden allocations of the block are (for all allocation lists; before 932554d exactly the allocations strictly between 0 and 1 base unit "
                 "halted: iff theorem + witness); the epochs begin-blocker survives the estaking hook whatever the provider's vesting claim does (witness of the earlier halt); the "
                 "protocol's remainder after the provider's portion is non-negative for every amount under the repaired validation (witness for the earlier one); each hypothesis of "
-                "ok_under is needed. Behavioural: every block of every history, with fault sequences and governance shocks, must be processed without error or panic.",
+                "ok_under is needed. Behavioural: every block of every history, with fault sequences and governance shocks, must be processed without error or panic."
+                " Begin-block fee allocation (x/estaking/modules/distribution): with truncated power fractions the allocation loop's remainder never goes negative for any validator set, fees and community tax in [0,1] (allocation_within_fees; witness for fractions rounded to nearest); on every block with fees the model's per-validator rewards are compared with x/distribution's own rewards events. EdenB burn: the distribution starting info never records more stake than is stored (edenB_withdraw_ok). Governance shocks include the SDK distribution parameters.",
 )
